@@ -1,3 +1,5 @@
+import ast
+
 import pyparsing
 from miasm.expression.expression import ExprInt, ExprId, ExprLoc, ExprSlice, \
     ExprMem, ExprCond, ExprCompose, ExprOp, ExprAssign, LocKey
@@ -35,11 +37,14 @@ T_INF = pyparsing.Suppress("<")
 T_SUP = pyparsing.Suppress(">")
 
 
-string_quote = pyparsing.QuotedString(quoteChar="'", escChar='\\', escQuote='\\')
-string_dquote = pyparsing.QuotedString(quoteChar='"', escChar='\\', escQuote='\\')
+# Names are printed with repr(): they are Python string literals
+string_quote = pyparsing.Regex(r"'(?:[^'\\]|\\.)*'")
+string_dquote = pyparsing.Regex(r'"(?:[^"\\]|\\.)*"')
 
 
-string = string_quote | string_dquote
+string = (string_quote | string_dquote).setParseAction(
+    lambda t: ast.literal_eval(t[0])
+)
 
 expr = pyparsing.Forward()
 
